@@ -206,7 +206,7 @@ def _split(recs):
 
 
 def run(tier):
-    ck = c.Check(PROP, tier, level="trace_validation")
+    ck = c.Check(PROP, tier, level="model_checking")
     sd = c.seed()
     repo = repo_root()
     tests_dir = Path("polyply") / "tests"
@@ -381,7 +381,7 @@ def _vacuity(ck, tests, walks, engines, focus):
 def replay(path):
     doc = json.loads(open(path).read())
     case = doc["case"]
-    ck = c.Check(PROP, "quick", level="trace_validation")
+    ck = c.Check(PROP, "quick", level="model_checking")
     repo = repo_root()
     scratch = tempfile.mkdtemp(prefix="x06_", dir="/var/tmp")
     try:
